@@ -132,6 +132,9 @@ def make_source(rnd):
     elif k < 0.25:
         from .c08 import G8
         p = G8(rnd, 2).build()
+    elif k < 0.33:
+        from ..gen_tt import rare_shape_program
+        p, _ = rare_shape_program(rnd)
     else:
         p, argv, W, kind = progs.draw(rnd)
     if c < 0.46:
